@@ -10,6 +10,23 @@ fn main() {
     if let Err(e) = mirror::self_check() {
         machinery_error(&e);
     }
+    if args[1] == "dump-world" {
+        // debugging aid: what the BFS world's predictors do on a few texts
+        let w = bfs::World::new(Tier::Quick);
+        for t in args[2..].iter() {
+            for (i, p) in w.preds.iter().enumerate() {
+                let mut s = vaporetto::Sentence::from_raw(t.clone()).unwrap();
+                p.p.predict(&mut s);
+                if p.predict_tags {
+                    s.fill_tags();
+                }
+                let mut buf = String::new();
+                s.write_tokenized_text(&mut buf);
+                println!("{t:?} pred{i} -> {buf}   scores {:?}", s.boundary_scores());
+            }
+        }
+        return;
+    }
     if args[1] == "replay" {
         let s = std::fs::read_to_string(&args[2]).unwrap_or_else(|e| machinery_error(&format!("{}: {e}", args[2])));
         let v: serde_json::Value = serde_json::from_str(&s).unwrap_or_else(|e| machinery_error(&format!("{e}")));
